@@ -98,6 +98,11 @@ func (c16) Gen(r *simrt.Rand, idx int, tier string) *Case {
 	if idx%5 == 3 {
 		g.PNegPrice = 0.15
 	}
+	if idx%150 == 9 {
+		// two years of daily quotes: several hundred days that carry directives
+		g.MaxSpan, g.DailyPrices = 600, true
+		g.MaxCom = 3
+	}
 	c := &Case{Sub: "ledger", Gen: &g, Today: "2030-01-01"}
 	for try := 0; try < 20; try++ {
 		c.J = Gen(r, g)
